@@ -59,6 +59,21 @@ def _shared_words(a, b):
         k += 1
 
 
+_DYNAMIC = {}      # factories of parametrised entries, filled by build()
+
+
+def resolve(C, name):
+    """the thunk of a catalogue name: a fixed entry, or a parametrised one (`toggleseq.<family>.<coin>.<setter>.<pattern>`)"""
+    if name in C:
+        return C[name]
+    kind, _, rest = name.partition(".")
+    if kind == "toggleseq":
+        fam, mem, setter, pattern = rest.split(".")
+        if set(pattern) <= set("TF"):
+            return lambda: _DYNAMIC[kind](fam, mem, setter, pattern)
+    raise KeyError(name)
+
+
 def build():
     from bip_utils import (Bip39MnemonicDecoder, Bip39MnemonicEncoder, Bip39Languages, Bip39MnemonicValidator, Bip39SeedGenerator,
                            MoneroMnemonicEncoder, MoneroMnemonicDecoder, MoneroLanguages, ElectrumV1MnemonicEncoder, ElectrumV1MnemonicDecoder,
@@ -164,6 +179,20 @@ def build():
     C["toggle.bch49.legacy"] = lambda: toggled("Bip49", "BITCOIN_CASH", "UseLegacyAddress")
     C["toggle.ltc.depr"] = lambda: toggled("Bip44", "LITECOIN", "UseDeprecatedAddress")
     C["toggle.ltc.altkeynet"] = lambda: toggled("Bip44", "LITECOIN", "UseAlternateKeyNetVersions")
+    def toggleseq(fam, mem, setter, pattern):
+        """PARAMETRISED entry `toggleseq.<family>.<coin>.<setter>.<pattern>`: the boolean option `setter` of the coin's shared configuration is
+        called once per letter of `pattern` (T = True, F = False, possibly none), then the coin is observed (keys, extended keys of both kinds,
+        address, WIF), then the option is put back to False. An option is a switch: the observation is a function of the LAST value given."""
+        cls, en, getter = fams[fam]
+        conf = getter.GetConfig(en[mem])
+        try:
+            for ch in pattern:
+                getattr(conf, setter)(ch == "T")
+            mst = cls.FromSeed(seed, en[mem])
+            return addr_of(cls, en[mem]) + [mst.PrivateKey().ToExtended(), mst.PublicKey().ToExtended()]
+        finally:
+            getattr(conf, setter)(False)
+    _DYNAMIC["toggleseq"] = toggleseq
     # --- plain BIP-32, conversion to public-only after use, other wallets
     def convert_after_use():
         b = Bip32Slip10Secp256k1.FromSeed(seed)
@@ -231,7 +260,7 @@ def main():
 
         def worker(i):
             for j in range(i, len(names), nth):
-                out[j] = _run(C[names[j]])
+                out[j] = _run(resolve(C, names[j]))
         ths = [threading.Thread(target=worker, args=(i,)) for i in range(nth)]
         for t in ths:
             t.start()
@@ -239,7 +268,7 @@ def main():
             t.join()
     else:
         for j, n in enumerate(names):
-            out[j] = _run(C[n])
+            out[j] = _run(resolve(C, n))
     print(json.dumps(out))
 
 
